@@ -2,7 +2,7 @@
 GENERATED import list — regenerate with `python3 tools/gen_all_imports.py` (from /verif); do not edit the
 imports by hand. `python3 tools/gen_all_imports.py --check` fails if a module on disk is not imported here.
 
-Imports every module of the libraries QmcModel, QmcProofs, QmcProps (178 modules), so that
+Imports every module of the libraries QmcModel, QmcProofs, QmcProps (191 modules), so that
 `lake build QmcAll` certifies that the whole development type-checks in ONE environment: no two modules
 declare the same name (Lean: "environment already contains …"). See design_notes/Cleanup.md.
 
@@ -23,6 +23,8 @@ import QmcModel.Convert
 import QmcModel.Cutoff
 import QmcModel.Diagonal
 import QmcModel.FastOps
+import QmcModel.FastOpsHint
+import QmcModel.FastOpsHintDriver
 import QmcModel.Generated.Ambient
 import QmcModel.Generated.Fields
 import QmcModel.Generated.PoolCaps
@@ -47,8 +49,10 @@ import QmcModel.Stepper
 import QmcModel.Tempering
 import QmcModel.Worldline
 import QmcProofs.Autocorr
+import QmcProofs.AutocorrFFT
 import QmcProofs.BondContainer
 import QmcProofs.Classical
+import QmcProofs.ClassicalErgodic
 import QmcProofs.Cluster
 import QmcProofs.ClusterComponents
 import QmcProofs.ClusterDraws
@@ -77,6 +81,7 @@ import QmcProofs.FastOpsFull
 import QmcProofs.FastOpsGlobal
 import QmcProofs.FastOpsGlobalCanon
 import QmcProofs.FastOpsGlobalStep
+import QmcProofs.FastOpsHint
 import QmcProofs.FastOpsInstallList
 import QmcProofs.FastOpsInv
 import QmcProofs.FastOpsNth
@@ -120,10 +125,13 @@ import QmcProofs.Loop
 import QmcProofs.LoopConsistent
 import QmcProofs.LoopKernel
 import QmcProofs.LoopKernelCut
+import QmcProofs.LoopKernelMass
+import QmcProofs.LoopKernelMassLimit
 import QmcProofs.LoopNoPanic
 import QmcProofs.LoopPath
 import QmcProofs.LoopReverse
 import QmcProofs.LoopSingleSite
+import QmcProofs.MarkovUnique
 import QmcProofs.PathSum
 import QmcProofs.Pool
 import QmcProofs.PureFnsAgree
@@ -151,6 +159,8 @@ import QmcProofs.RefinementSampler
 import QmcProofs.RefinementSweep
 import QmcProofs.Rvb
 import QmcProofs.RvbBalance
+import QmcProofs.RvbExtractFlip
+import QmcProofs.RvbKernel
 import QmcProofs.RvbMove
 import QmcProofs.RvbRegion
 import QmcProofs.RvbSweep
@@ -173,6 +183,7 @@ import QmcProps.C02
 import QmcProps.C03
 import QmcProps.C04
 import QmcProps.C04Capstone
+import QmcProps.C04Mass
 import QmcProps.C05
 import QmcProps.C06
 import QmcProps.C07
@@ -188,7 +199,9 @@ import QmcProps.C16
 import QmcProps.C17
 import QmcProps.C18
 import QmcProps.C19
+import QmcProps.C19Unique
 import QmcProps.C20
+import QmcProps.C20FFT
 import QmcProps.Law
 
 -- END GENERATED IMPORTS (tools/gen_all_imports.py); everything below is hand-written and kept
